@@ -513,6 +513,21 @@ def assemble(repo, spec, rows=None, canary=None, opts=None):
                         ed.insert(it['body_start'] + 1, '\n' + t, prio=0)
                     elif w == 'tail':
                         ed.insert(tail_pos(src, mask, it['body_start'], it['end'] - 1), t + indent + '    ', prio=0)
+                    elif w.startswith('before_return'):
+                        # before the k-th `return` statement whose text mentions the given identifier (e.g. an enum variant)
+                        m = re.match(r'before_return\s+(\w+)\s+(\d+)$', w)
+                        if not m: raise ToolError('bad proof position %r for %s' % (w, path))
+                        rets = []
+                        for x in re.finditer(r'\breturn\b', src[it['body_start']:it['end']]):
+                            a = x.start() + it['body_start']
+                            if mask[a] != ord('c'): continue
+                            b = a
+                            while b < it['end'] and not (mask[b] == ord('c') and src[b] == ';'): b += 1
+                            if re.search(r'\b%s\b' % re.escape(m.group(1)), src[a:b]): rets.append(a)
+                        k = int(m.group(2))
+                        if k >= len(rets):
+                            raise ToolError('lost anchor: %s has no return #%d mentioning %s' % (path, k, m.group(1)))
+                        ed.insert(rets[k], t + indent + '        ', prio=0)
                     elif w.startswith('before_call'):
                         # before the statement containing the k-th call of a function (keyed by callee name + ordinal)
                         m = re.match(r'before_call\s+(\w+)\s+(\d+)$', w)
